@@ -29,6 +29,8 @@ type gen struct {
 	ext []*lnInvoice // external invoices created so far
 	// random histories only: now and then request a signature over a secret beyond the 512-byte limit
 	longSecrets bool
+	// monitor-only random histories (mint-mon): NUT-10 envelopes with hostile content
+	hostile bool
 }
 
 var feeChoices = []uint{0, 0, 1, 100, 999, 1000, 2500}
@@ -241,7 +243,7 @@ var hostileSecrets = []string{
 func (g *gen) mutateInputs(ps []ReqProof) ([]ReqProof, string) {
 	r := g.r
 	all := g.s.proofs
-	if !g.s.model && len(ps) > 0 && r.Chance(12) {
+	if g.hostile && len(ps) > 0 && r.Chance(12) {
 		// monitor-only streams: a well-formed NUT-10 envelope with hostile content (the spending condition is parsed
 		// before the signature is checked, so the proof need not be genuine): short / empty / odd tags, wrong kinds,
 		// non-numeric numbers.  Must be refused without a panic and without any change.
@@ -435,7 +437,7 @@ func runOneHistory(c *Ctx, h int, nOps int, model bool) {
 	}
 	defer env.Close()
 	s := NewSeq(c, env, model, mintSeqProps)
-	g := &gen{c: c, s: s, env: env, r: r, longSecrets: true}
+	g := &gen{c: c, s: s, env: env, r: r, longSecrets: true, hostile: !model}
 	if model {
 		init := L(A("mint.init"), N(uint64(opts.FeePpk)), B(opts.FeePct), B(opts.MPP), N(opts.Limits.MintingSettings.MaxAmount),
 			N(opts.Limits.MaxBalance), N(opts.Limits.MeltingSettings.MaxAmount))
